@@ -87,14 +87,14 @@ func (c *Ctx) choose(label string, n int, free bool) int {
 	if i < len(c.prefix) {
 		v = c.prefix[i]
 		if v < 0 || v >= n {
-			panic(HarnessError{fmt.Sprintf("replay divergence at point %d (%s): choice %d out of range %d", i, label, v, n)})
+			panic(divergedPlain{fmt.Sprintf("replay divergence at point %d (%s): choice %d out of range %d", i, label, v, n)})
 		}
 	}
 	if c.recorded != nil && i < len(c.recorded) {
 		want := c.recorded[i]
 		got := fmt.Sprintf("%s/%d", label, n)
 		if want != got {
-			panic(HarnessError{fmt.Sprintf("replay divergence at point %d: recorded %s, now %s", i, want, got)})
+			panic(divergedPlain{fmt.Sprintf("replay divergence at point %d: recorded %s, now %s", i, want, got)})
 		}
 	}
 	c.Points = append(c.Points, Point{Label: label, N: n, Free: free})
